@@ -403,6 +403,9 @@ type Sched struct {
 }
 
 func (s *Sched) handler(point string, key any) {
+	if soloBusy.Load() {
+		return // a resolver of the "alone" oracle is running (cache miss during a case): not ours
+	}
 	s.mu.Lock()
 	s.arrivals = append(s.arrivals, Arrival{point, key})
 	if s.armed && s.point == point && (s.match == nil || s.match(key)) {
